@@ -52,7 +52,7 @@ def f(x):
     return float("inf") if x == INF else float(fr(x))
 
 
-def observe(at, c0, split=False):
+def observe(at, c0, split=False, reverse=False):
     """Run one case through the optimisation API. Returns (outcome, z per year or None, error text)."""
     import sciris as sc
     from atomica.optimization import SpendingAdjustment, TotalSpendConstraint, Optimization, MaximizeMeasurable, UnresolvableConstraint, FailedConstraint
@@ -68,6 +68,8 @@ def observe(at, c0, split=False):
     totals = [None if c["tot"][y] == NOTOTAL else f(c["tot"][y]) for y in range(ny)]
     if ny == 2 and split:  # the two constrained years given as two constraint objects instead of one
         con = [TotalSpendConstraint(total_spend=None if totals[y] is None else [totals[y]], t=[ts[y]], budget_factor=f(c["factor"])) for y in range(ny)]
+    elif ny == 2 and reverse and any(t is not None for t in totals):  # the constrained years listed latest first, each with its own total
+        con = TotalSpendConstraint(total_spend=totals[::-1], t=ts[::-1], budget_factor=f(c["factor"]))
     else:
         con = TotalSpendConstraint(total_spend=totals if any(t is not None for t in totals) else None, t=ts, budget_factor=f(c["factor"]))
     opt = Optimization(adjustments=adjs, measurables=MaximizeMeasurable("x", ts), constraints=con)
@@ -218,7 +220,7 @@ def run(prop, tier):
             cov["exhaustive"] = False
             cov["exhaustive_note"] = "1-3 programs and the spending packages exhaustive over the grids; 6 and 10 programs on vectors drawn with the harness's seeded generator"
         for c0 in cases:
-            outcome, z, err = observe(at, c0, split=(len(records) % 2 == 1))
+            outcome, z, err = observe(at, c0, split=(len(records) % 4 in (1, 3)), reverse=(len(records) % 4 == 2))
             outcomes[outcome] = outcomes.get(outcome, 0) + 1
             yrs = []
             for y, yr in enumerate(c0["year"]):
